@@ -1,6 +1,8 @@
 """C16 - client connection policy: direct first, ordered failover, reuse, reconnect."""
 PID = "C16"
 BEH = ["oksecure", "okinsecure", "refused", "hserror", "silent"]
+# "stalls": a real server that answers the first handshake message and then never hears the second (the model's "silent" class: no
+# handshake completes, the attempt has to be abandoned by its deadline)
 RULE = ("every upstream list of length 1..3 over {reachable+secure, reachable+insecure, refusing, handshake error, silent} (155 lists; length 4 "
         "sampled) x require-security x forward address {none, reachable, refusing}, each with several local connections; session-loss histories "
         "(carrier cut at various points followed by new local connections). Real Socket upstreams against real servers / refusing ports / "
@@ -15,7 +17,7 @@ RUN_TIMEOUT = 2400
 def mk(must, fwd, ups, ops, src):
     line = "c16 %d %s %d %s %s" % (must, fwd, len(ups), " ".join(ups), " ".join(ops))
     nt = any(u not in ("oksecure", "okinsecure") for u in ups) or "cut" in ops
-    return {"line": line, "key": line if nt else None, "tags": {"src": src, "must": must, "fwd": fwd, "n": len(ups), "silent": ups.count("silent")}}
+    return {"line": line, "key": line if nt else None, "tags": {"src": src, "must": must, "fwd": fwd, "n": len(ups), "silent": ups.count("silent") + ups.count("stalls")}}
 
 
 def lists(n):
@@ -43,6 +45,14 @@ def cases(tier, rng):
     for _ in range(120 if thorough else 12):
         ups = [rng.choice(BEH[:4]) for _ in range(4)]
         cs.append(mk(rng.below(2), "none", ups, ["conn", "conn", "conn"], "order4"))
+    for ups in (["stalls", "oksecure"], ["stalls", "okinsecure"], ["refused", "stalls", "okinsecure"], ["stalls"]):
+        for must in (0, 1):
+            cs.append(mk(must, "none", ups, ["conn", "conn"], "stalls"))
+    # several local connections arriving together, at the start and right after a session loss
+    for ups in (["oksecure"], ["refused", "okinsecure"], ["hserror", "oksecure"]):
+        cs.append(mk(0, "none", ups, ["wait -3", "conn", "conn", "conn", "conn"], "together"))
+        cs.append(mk(0, "none", ups, ["conn", "cut", "wait -3", "conn", "conn", "conn", "conn"], "together-after-loss"))
+        cs.append(mk(0, "none", ups, ["conn", "conn", "cut", "wait -4", "conn", "conn", "conn", "conn", "cut", "wait -2", "conn", "conn"], "together-after-loss"))
     for fwd in ("ok", "refused"):
         for ups in (["oksecure"], ["refused", "okinsecure"], ["refused"]):
             cs.append(mk(0, fwd, ups, ["conn", "conn"], "forward"))
